@@ -35,7 +35,10 @@ PrefixLevel(c, argv, start, cur, fsat, fsskip) == PrefixLevelV(c, argv, start, c
 
 \* "where a new argument may start": no option awaiting a value, before any `--`
 \* (a positional that accepts hyphen values and is still collecting swallows every further token, flags included)
-NewArgMayStart(p) == p.ok /\ ~p.ext /\ p.st.ps.k # "opt" /\ ~p.st.trailing /\ ~PsArgHyphen(p.c, p.st)
+\* "before any `--`" is read literally as well: a bare `--` among the preceding words switches the requirement off even
+\* where the parser consumed it as a hyphen value of a pending option (the engine takes every bare `--` for the escape)
+NewArgMayStart(p, before) == /\ p.ok /\ ~p.ext /\ p.st.ps.k # "opt" /\ ~p.st.trailing /\ ~PsArgHyphen(p.c, p.st)
+                             /\ \A k \in 1..Len(before) : before[k] # <<45, 45>>
 
 \* ---- spellings that extend the word under the cursor ---------------------------
 DD == <<45, 45>>
@@ -100,7 +103,7 @@ P18(def, words, i, obs) ==
       w == words[i]
       represented == {[k |-> obs.cands[j].k, id |-> obs.cands[j].id] : j \in 1..Len(obs.cands)}
   IN /\ ~obs.panicked
-     /\ (NewArgMayStart(p) =>
+     /\ (NewArgMayStart(p, SubSeq(words, 1, i - 1)) =>
            /\ \A j \in 1..Len(obs.cands) : CandidateSound(p.c, p.st, w, obs.cands[j])
            /\ MustIds(p.c, p.st, w) \subseteq represented
            /\ HiddenOnlyIfNothingVisible(p.c, obs.cands))
